@@ -88,7 +88,12 @@ func wmRun(t *testing.T, c *simrt.Case, prop string, keepTrace bool) simrt.Resul
 		_ = w.inner.UpdateOffsets(ctx, "orders", 0, 41)
 		_ = w.inner.CommitConsumerOffset(ctx, "g0", "orders", 0, 17, "m")
 		_ = w.inner.PutConsumerGroup(ctx, &metadatapb.ConsumerGroup{GroupId: "g0", State: "stable", GenerationId: 3, Leader: "m1",
-			Members: map[string]*metadatapb.GroupMember{"m1": {Subscriptions: []string{"orders"}, Assignments: []*metadatapb.Assignment{{Topic: "orders", Partitions: []int32{0, 1}}}}}})
+			RebalanceTimeoutMs: 30000,
+			Members: map[string]*metadatapb.GroupMember{
+				"m1": {Subscriptions: []string{"orders"}, Assignments: []*metadatapb.Assignment{{Topic: "orders", Partitions: []int32{0, 1}}}},
+				// a member whose stored heartbeat is long past its session timeout (a reader that "tidies up" would drop it)
+				"m2": {ClientId: "c2", HeartbeatAt: "1999-12-31T00:00:00Z", SessionTimeoutMs: 10000, Subscriptions: []string{"orders"}, Assignments: []*metadatapb.Assignment{{Topic: "orders", Partitions: []int32{2}}}},
+			}})
 		w.store = kafsim.NewStore(w.inner, c.Cfg("store_lat_us", 500))
 		w.opts = Options{Store: w.store}
 		w.done = s.NewFuture("")
